@@ -30,6 +30,8 @@ ASSUMPTIONS = ["one template program per lint site, one program with many lints"
 def signature(f):
     d = f.get("detail") or {}
     c = f.get("case") or {}
+    if f.get("family") == "rules":
+        return "rules %s %s" % (d.get("kind"), d.get("what", ""))
     if c.get("many"):
         return "lints many %s %s" % (d.get("kind"), d.get("what", ""))
     return "lints %s %s site=%s place=%s" % (d.get("kind"), d.get("what", ""), c.get("site"), c.get("place"))
@@ -42,4 +44,7 @@ def run(ctx):
     # the same program through the real binary with a capturing generator: exit status, generator request, errors
     ctx.tlc("MC_ManyLints", "MC_ManyLints_one" if ctx.quick else "MC_ManyLints", replay="lints", coverage=False, env={"VERIF_LINTS_MODE": "request"},
             label="MC_ManyLints(binary: request, exit status, errors)")
+    # every argument list <= 3 of the allow attribute (Attributes.tla): an argument that is no lint name is an error whatever else
+    # the list names (All included) - a suppression cannot silence an error
+    ctx.tlc("MC_AttrArgs", "MC_AttrArgs", replay="rules", coverage=False)
     ctx.tlc("MC_Lints", "MC_Lints_asbuilt", must_pass=False, label="MC_Lints_asbuilt(documents the pinned deviations)", coverage=False)
